@@ -65,6 +65,9 @@ def _triple(xml, e):
         node = xml.xpath(e.path) if e.path else None
         if node and node[0].getparent() is not None:
             parent = node[0].getparent().tag.split('}')[1]
+        # an attribute inside a meta block is never the author's: bluebell (and cobalt) write every one of them
+        if node and attr and any(a.tag.split('}')[-1] == 'meta' for a in node[0].iterancestors()):
+            kind = 'meta-' + kind
     except Exception:
         pass
     return (el, parent, kind)
@@ -151,13 +154,23 @@ WITNESSES = [('act', 'LONGTITLE x\n'), ('act', 'BULLETS\n  * a\n    ITEMS\n     
              ('doc', 'PREFACE\n  FOOTNOTE a\n    note\nBODY\n  x {{FOOTNOTE a}}\n'), ('statement', 'PREAMBLE\n  FOOTNOTE a\n    note\nBODY\n  x {{FOOTNOTE a}}\n'),
              ('bill', 'BODY\n  x {{FOOTNOTE a}}\nCONCLUSIONS\n  FOOTNOTE a\n    note\n')]
 
+# FRBR URIs in every shape the convention has: the meta block (and each attachment's) is built from it
+FRBR_URIS = ['/akn/za/act/2009/10', '/akn/za/act/2009/10/eng', '/akn/za/act/2009/10/eng@2012-04-26', '/akn/za/act/2009/10/eng:2012-04-26', '/akn/za/act/2009/10/eng@',
+             '/akn/za/act/2009/10/eng:', '/akn/za/act/2009/10/eng@2012-04', '/akn/za/act/2009/10/eng@2012', '/akn/za/act/2009/10/eng@2012-04-26/!main~chp_2',
+             '/akn/za/act/2009/10/!schedule_1', '/akn/za-cpt/act/by-law/2010/public-places/afr@2021-01-01', '/akn/za/act/gn/2020/R1234', '/akn/za/judgment/ZACC/2022/15/eng@2022-03-01',
+             '/akn/na/act/p/1990-03-21/1', '/akn/za/doc/policy/doj/2015-06-01/white-paper', '/akn/un/statement/deliberation/unga/2011-03-09/65-251/fra@']
+URI_TEXTS = {'act': 'SEC 1. - Title\n\n  Some text.\n\nSCHEDULE - One\n  x\n', 'debate': 'DEBATESECTION\n  SPEECH\n    FROM a\n    words\n',
+             'judgment': 'INTRODUCTION\n  x\nSCHEDULE\n  y\n'}
+def uri_cases():
+    return [(u, root, '', URI_TEXTS.get(root, URI_TEXTS['act'])) for u in FRBR_URIS for root in gen.ROOTS7]
+
 def correspondence(ctx):
     cs = cases(ctx, ctx.n(700, 40000)) + [(stages.URIS[0], r, '', t) for r, t in WITNESSES]
     ctx._docs = cs
     stages.stage_e2e(ctx, cs)
 
 def search(ctx, budget):
-    cs = list(getattr(ctx, '_docs', [])) + (cases(ctx, ctx.n(700, 40000) * (budget - 1)) if budget > 1 else [])
+    cs = list(getattr(ctx, '_docs', [])) + (cases(ctx, ctx.n(700, 40000) * (budget - 1)) if budget > 1 else []) + uri_cases()
     for c, r in zip(cs, impl.pmap(_oracle, cs, chunk=8)):
         ctx.evaluations += 1; ctx.count('oracle_' + r[0])
         if r[0] == 'bad':
